@@ -30,6 +30,31 @@ def props_all():
     return [c["property_id"] for c in m["checks"]]
 
 
+BASELINE = {}
+
+
+def baseline(props):
+    """FINDING keys the checks print for the *unchanged* tree in --src mode (should be none): never credited to a seed"""
+    tmp = tempfile.mkdtemp(prefix="reseed_base_", dir="/tmp")
+    try:
+        os.makedirs(os.path.join(tmp, "src"))
+        shutil.copy("/repo/config.h", tmp)
+        for fn in os.listdir("/repo/src"):
+            if fn.endswith((".c", ".h")) or fn in ("Makefile.am", "Makefile"):
+                shutil.copy(os.path.join("/repo/src", fn), os.path.join(tmp, "src"))
+
+        def run(p):
+            rc, out = sh("%s/check %s --src %s/src" % (VERIF, p, tmp))
+            return p, {l.split()[1] for l in out.splitlines() if l.startswith("FINDING")}, rc
+        with concurrent.futures.ThreadPoolExecutor(max_workers=12) as ex:
+            for p, keys, rc in ex.map(run, props):
+                BASELINE[p] = keys
+                if keys or rc not in (0,):
+                    print("BASELINE %s: exit %d, %d findings on the unchanged tree: %s" % (p, rc, len(keys), sorted(keys)[:3]), flush=True)
+    finally:
+        shutil.rmtree(tmp, ignore_errors=True)
+
+
 def one(sid, props, repo_mode):
     d = os.path.join(SEEDED, sid)
     patch = os.path.join(d, "patch.diff")
@@ -57,7 +82,11 @@ def one(sid, props, repo_mode):
             return sid, {"error": "patch does not apply: " + out[-300:]}
         for p in props:
             rc, out = sh("%s/check %s --src %s/src" % (VERIF, p, tmp))
-            res[p] = {"exit": rc, "lines": [l[:300] for l in out.splitlines() if l.startswith(("FINDING", "ANALYSIS-BROKEN"))][:6]}
+            lines = [l[:300] for l in out.splitlines() if l.startswith(("FINDING", "ANALYSIS-BROKEN"))
+                     and not (l.startswith("FINDING") and l.split()[1] in BASELINE.get(p, ()))]
+            if rc == 1 and not lines:
+                rc = 0          # only findings the unchanged tree has as well
+            res[p] = {"exit": rc, "lines": lines[:6]}
         return sid, res
     finally:
         shutil.rmtree(tmp, ignore_errors=True)
@@ -74,6 +103,8 @@ def main():
         own = sid.split("-")[0]
         jobs.append((sid, plist if allp else [own]))
     results = {}
+    if not repo_mode:
+        baseline(sorted({p for _, props in jobs for p in props}))
     if repo_mode:
         for sid, props in jobs:
             s, r = one(sid, props, True)
